@@ -136,15 +136,49 @@ Theorem C12_analysis_wrappers_same_kernel :
 Proof. reflexivity. Qed.
 Print Assumptions C12_analysis_wrappers_same_kernel.
 
-(** importImage UV workers: whatever a pooled importUVWorker (possibly from a wider
-    image) held, every U / V sample of a row pair is computed from scratch cells written
-    in the same call (hand model of the index sets, ConcUVScratch.v). *)
+(** importImage UV workers: whatever a pooled importUVWorker (possibly from a wider image)
+    held, every U / V sample of a row pair is computed from scratch cells written in the
+    same call.  The index facts of dsp.AccumulateRGBA and dsp.ConvertRGBA32ToUV are
+    REGENERATED from the source (Gen/UVScratch.v): the theorem is instantiated with them
+    and their admissibility check is discharged by computation. *)
+From WebpGen Require UVScratch.
+Module UV := Conc.ConcUVScratch.
+Module GU := WebpGen.UVScratch.
 Theorem C12_uv_worker_scratch_overwritten :
-  forall (w mbW L : nat) (hasAlpha : bool) (pooledRow0 pooledRow1 pooledPlanar pooledTmp : Conc.ConcUVScratch.arr) (i : nat),
+  forall (w mbW L : nat) (hasAlpha : bool) (pooledRow0 pooledRow1 pooledPlanar pooledTmp : UV.arr) (i : nat),
   (1 <= w)%nat -> (w <= 16 * mbW)%nat -> (16 * mbW <= L)%nat -> (i < (16 * mbW + 1) / 2)%nat ->
-  Conc.ConcUVScratch.uv_output_fresh w (16 * mbW) L hasAlpha pooledRow0 pooledRow1 pooledPlanar pooledTmp i = true.
-Proof. exact Conc.ConcUVScratch.uv_worker_scratch_overwritten. Qed.
+  UV.uv_output_fresh_gen w (16 * mbW) L hasAlpha pooledRow0 pooledRow1 pooledPlanar pooledTmp
+      GU.acc_j_step GU.acc_reads GU.acc_dst_step GU.acc_dst_writes GU.conv_mult GU.conv_reads i = true.
+Proof.
+  intros. apply UV.uv_worker_scratch_overwritten_gen; try assumption. vm_compute. reflexivity.
+Qed.
 Print Assumptions C12_uv_worker_scratch_overwritten.
+
+(** Source tie for the rest of the UV model (regenerated): the loop bounds of the two
+    kernels, the definition of uvWidth, the statements of the UV goroutine before the
+    row-pair loop (pooled worker, 0xff fill of planarA without alpha) and the row-pair loop
+    body (row fill, edge replication, copies, call arguments) are the texts the model
+    transcribes. *)
+Theorem C12_uv_loop_text_matches_model :
+  GU.acc_loop_bound = "i < (width >> 1)"%string /\ GU.conv_loop_bound = "i < width"%string /\
+  GU.uv_width_def = "(padW + 1) >> 1"%string /\
+  GU.uv_goroutine_prelude = UV.modelled_goroutine_prelude /\
+  GU.uv_pair_loop_body = UV.modelled_pair_loop_body.
+Proof. repeat split; reflexivity. Qed.
+Print Assumptions C12_uv_loop_text_matches_model.
+
+(** Regenerated: in both analysis kernels the first access, in program order, to every
+    scratch parameter (through loops, branches, switch alternatives and package-local
+    callees; dsp.FTransformDirect's third argument is its output) is a store — supports
+    the assumption that their results do not depend on what the scratch held. *)
+Theorem C12_analysis_kernels_write_scratch_first :
+  forallb (fun kpa => String.eqb (snd kpa) "write") WebpGen.Analysis.kernel_scratch_first_access = true /\
+  map (fun kpa => fst kpa) WebpGen.Analysis.kernel_scratch_first_access =
+  [("computeMBAlphaDCTWith", "src"); ("computeMBAlphaDCTWith", "pred"); ("computeMBAlphaDCTWith", "tmpCoeffs");
+   ("computeMBUVAlphaDCTWith", "srcU"); ("computeMBUVAlphaDCTWith", "srcV"); ("computeMBUVAlphaDCTWith", "predU");
+   ("computeMBUVAlphaDCTWith", "predV"); ("computeMBUVAlphaDCTWith", "tmpCoeffs")]%string.
+Proof. split; reflexivity. Qed.
+Print Assumptions C12_analysis_kernels_write_scratch_first.
 
 (** animation.DecodeFramesParallel (work queue + collection of results in arrival order,
     ConcQueue.v; [dec] = the frame decoder, arbitrary; [collect] = the current loop, which
